@@ -148,17 +148,20 @@ def main(argv=None):
 
     # ---------------- aggregate
     agg = dict(paths=0, pruned=0, redundant=0, infeasible=0, queries=0, solver_s=0.0, branches=0, obligations=0, discharged=0, sat=0, unknown=0, trivially_true=0)
-    prune_reasons = {}; notes = {}; exceptions = {}; percase = {}
+    prune_reasons = {}; notes = {}; exceptions = {}; percase = {}; not_encoded = []
     for r in results:
         for k in agg: agg[k] += r['stats'].get(k, 0) or 0
         for k, v in (r['stats'].get('prune_reasons') or {}).items(): prune_reasons[k] = prune_reasons.get(k, 0) + v
         for k, v in r['notes'].items(): notes[k] = notes.get(k, 0) + v
         for k, v in r.get('exceptions', {}).items(): exceptions[k] = exceptions.get(k, 0) + v
-        if r['status'] != 'ok': problems.append('case %s: %s' % (r['case']['name'], r['error']))
+        if r['status'] != 'ok':
+            if r['case'].get('optional') and r['status'] in ('unsupported', 'inconclusive'):
+                not_encoded.append(dict(case=r['case']['name'], reason=(r['error'] or '')[:160]))
+            else: problems.append('case %s: %s' % (r['case']['name'], r['error']))
         cn = r['case']['name']
         percase.setdefault(cn, [0, 0, r['case']]); percase[cn][0] += r['stats'].get('paths', 0) or 0; percase[cn][1] += r['stats'].get('pruned', 0) or 0
     for cn, (np_, npr, cc) in percase.items():
-        if np_ == 0 and not cc.get('may_be_empty'):
+        if np_ == 0 and not cc.get('may_be_empty') and not cc.get('optional'):
             problems.append('vacuity: case %s completed no path (pruned %s)' % (cn, npr))
     # harness-level vacuity / progress guards
     for g in getattr(H, 'GUARDS', []):
@@ -200,7 +203,7 @@ def main(argv=None):
                                 bounds=getattr(H, 'BOUNDS', {}).get(a.tier, getattr(H, 'BOUNDS', {})), path_notes=notes, exceptions_seen=exceptions,
                                 known_findings_hit=[dict(id=k, n=v['n'], what=v['finding']['what']) for k, v in known_hits.items()],
                                 solver='z3 %s (python API, incremental)' % z3ver(), exhaustive=False,
-                                inconclusive=problems[:20]),
+                                inconclusive=problems[:20], cases_not_encoded=not_encoded[:200], n_cases_not_encoded=len(not_encoded)),
                   assumptions=getattr(H, 'ASSUMPTIONS', []) + COMMON_ASSUMPTIONS,
                   wall_s=round(wall, 2), violations=len(seenv))
         os.makedirs(os.path.join(VERIF, 'evidence'), exist_ok=True)
